@@ -183,6 +183,9 @@ def _random_tracks(draw, ctx):
                         + [(it[0], 1, k, it) for k, it in enumerate(sp)]
                         + [(it[0], 2, k, it) for k, it in enumerate(te)], key=lambda x: (x[0], x[1], x[2]))
         items = [x[3] for x in merged]
+    lifted = G.lift_items(draw, items, res, allow64=res >= 960)
+    if lifted:
+        items, tempo, _ = lifted
     return {"res": res, "items": items, "tempo": tempo, "header": draw(st.sampled_from(S.HEADER_LIST)),
             "fmt": draw(st.one_of(st.just(0), st.just(0), st.integers(1, 10 ** 6)))}
 
